@@ -273,10 +273,37 @@ theorem openStep_abs (cfg : PartCfg) (s s' : DC) (x : Xml) (c : Bool) (roots : L
   · have := pure_ok h; cases this
     split <;> first | rfl | (exfalso; simp_all)
 
-theorem closeStep_abs (cfg : PartCfg) (s s' : DC) (x : Xml) (h : closeStep cfg s x = .ok s') :
-    closeStepA cfg.dup (absDC s) x = .ok (absDC s') := by
-  unfold closeStep at h
-  unfold closeStepA
+theorem flushImplicit_abs (s s' : DC) (d : Option Nat) (h : s.flushImplicit d = .ok s') :
+    (absDC s).flushImplicit d = .ok (absDC s') := by
+  unfold DC.flushImplicit at h ⊢
+  cases d with
+  | none => have := pure_ok h; subst this; rfl
+  | some d =>
+    simp only at h ⊢
+    have e : (absDC s).openPars.getLast? = s.openPars.getLast?.map erasePar := by simp [absDC, List.getLast?_map]
+    rw [e]
+    cases hl : s.openPars.getLast? with
+    | none => rw [hl] at h; have := pure_ok h; subst this; rfl
+    | some p =>
+      rw [hl] at h
+      simp only [Option.map_some] at h ⊢
+      have ee : (erasePar p).elem = p.elem := rfl
+      rw [ee]
+      split
+      · rename_i hn; rw [if_pos hn] at h; exact concludePar_abs s s' h
+      · rename_i hn; rw [if_neg hn] at h; have := pure_ok h; subst this; rfl
+
+theorem setCaretOpen_abs (s s' : DC) (d : Option Nat) (n : Option Str) (h : s.setCaretOpen d n = .ok s') :
+    (absDC s).setCaretOpen d n = .ok (absDC s') := by
+  unfold DC.setCaretOpen at h ⊢
+  obtain ⟨s0, h0, h⟩ := bind_ok h
+  rw [flushImplicit_abs s s0 d h0]
+  exact setCaret_abs s0 s' d n h
+
+theorem closeStepCore_abs (cfg : PartCfg) (s s' : DC) (x : Xml) (h : closeStepCore cfg s x = .ok s') :
+    closeStepACore cfg.dup (absDC s) x = .ok (absDC s') := by
+  unfold closeStepCore at h
+  unfold closeStepACore
   generalize tagMember x.ptag = m at h ⊢
   split at h
   · exact concludePar_abs s s' h
@@ -284,6 +311,13 @@ theorem closeStep_abs (cfg : PartCfg) (s s' : DC) (x : Xml) (h : closeStep cfg s
   · exact closeTableCell_abs cfg.dup s s' x h
   · have := pure_ok h; subst this
     split <;> first | rfl | (exfalso; simp_all)
+
+theorem closeStep_abs (cfg : PartCfg) (s s' : DC) (x : Xml) (h : closeStep cfg s x = .ok s') :
+    closeStepA cfg.dup (absDC s) x = .ok (absDC s') := by
+  obtain ⟨s0, h0, h⟩ := closeStep_split cfg s s' x h
+  unfold closeStepA
+  rw [flushImplicit_abs s s0 _ h0]
+  exact closeStepCore_abs cfg s0 s' x h
 
 theorem finish_abs (cfg : PartCfg) (s s' : DC) (h : finish cfg s = .ok s') : finishA (absDC s) = .ok (absDC s') := by
   unfold finish at h
@@ -311,7 +345,7 @@ theorem walk_abs (cfg : PartCfg) (num : Dict Str (List NumAttr)) :
     obtain ⟨⟨s2, rec⟩, h2, h⟩ := bind_ok h
     obtain ⟨s3, h3, h⟩ := bind_ok h
     obtain ⟨s4, h4, h⟩ := bind_ok h
-    simp only [setCaret_abs s s1 _ _ h1, ok_bind, openStep_abs cfg s1 s2 _ c roots rec h2]
+    simp only [setCaretOpen_abs s s1 _ _ h1, ok_bind, openStep_abs cfg s1 s2 _ c roots rec h2]
     have h3' : (if rec = true then walkLA cfg.dup cfg.rels (c || isCellTag (.elem i p t m a tx tl ks)) (absDC s2) ks
         else pure (absDC s2)) = .ok (absDC s3) := by
       simp only at h3
